@@ -133,7 +133,7 @@ pub fn gen_spec(ch: &mut Ch) -> WorldSpec {
     let ov = if ch.below(2, "budget.rel") == 0 { fo_req.max(fo_resp) } else { fo_resp };
     let budget = gen_budget(ch, ov);
     WorldSpec {
-        server: ServerCfg { budget, expiry_ns: 1_000_000 * SEC, check_wire: false, snapshots: false, feed_all_types: false, record_held: false },
+        server: ServerCfg { budget, expiry_ns: 1_000_000 * SEC, check_wire: false, snapshots: false, feed_all_types: false, record_held: false, held_every: 1, held_always_from: 0 },
         resources,
         clients,
         max_events: 30_000,
